@@ -12,7 +12,7 @@
    e.g. an integer division, may be evaluated on more rows after a push-down); a stream join matches no NULL key
    (true after the join builder's repair; on the pinned tree see C04_pinned_join_null_key_refuted); the datasources
    reject predicate push-down (every datasource in the tree does; shape_ok requires it). *)
-From Octo Require Import Plan Optimizer GenOptimizer PlanLemmas OptimizerProofs.
+From Octo Require Import Plan Optimizer GenOptimizer PlanLemmas OptimizerProofs PruneProofs PruneGroupBy.
 
 (* what "the rule r changes no result" means *)
 Definition preserves (r : rule) : Prop :=
@@ -96,6 +96,82 @@ Theorem C04_datasource_prune_partial :
                                  (PDatasource s n al mp pol preds) env).
 Proof. exact datasource_prune. Qed.
 Print Assumptions C04_datasource_prune_partial.
+
+
+(* ---- the remove-unused rules: one removal step, through the whole plan ----
+   Each of the three rules is  fold over the candidate fields:  if not isUsed(f) then  step k f  (removeXField f, then
+   removeFieldFromPassers f; PruneProofs.step, k = KMap / KDs / KGb).  "Same result" when a column disappears below:
+   every node of the rewritten plan yields the rows of the original node with exactly that column dropped
+   (PruneProofs.claim: den (step..q) env' = map (prune_row f (fields_of q)) (den q env) for environments that agree
+   off f), hence at the root — whose schema does not have f, since isUsed counts the output fields — schema and rows
+   are unchanged.  Hypotheses (okb k f p, decidable, node by node): the field names of every record are distinct;
+   no node reads f (isUsed's test: variables of every expression, DISTINCT schemas, TVF descriptors, unnested
+   fields); f is not a field of a producer of another kind (a consequence of the unique names Typecheck generates);
+   no table valued function over a table below (tumble/max_diff_watermark: an arbitrary tvf_sem does not commute
+   with dropping a column).
+   FULL for one step of each of the three rules. *)
+Theorem C04_remove_unused_map_field_step :
+  forall db fn_sem assert_sem cast_sem other_sem agg_sem key_eqb distinct_sel ost_sel tvf_sem f p,
+    shape_ok p -> okb KMap f p = true -> ~ In f (fields_of p) ->
+    shape_ok (step KMap f p) /\ schema_of (step KMap f p) = schema_of p /\
+    forall env, den_plan db fn_sem assert_sem cast_sem other_sem agg_sem key_eqb distinct_sel ost_sel tvf_sem (step KMap f p) env =
+                den_plan db fn_sem assert_sem cast_sem other_sem agg_sem key_eqb distinct_sel ost_sel tvf_sem p env.
+Proof. intros db f a ca o ag k d os t fd p. apply (remove_step_sound db f a ca o ag k d os t KMap fd p). discriminate. Qed.
+Print Assumptions C04_remove_unused_map_field_step.
+
+Theorem C04_remove_unused_datasource_field_step :
+  forall db fn_sem assert_sem cast_sem other_sem agg_sem key_eqb distinct_sel ost_sel tvf_sem f p,
+    shape_ok p -> okb KDs f p = true -> ~ In f (fields_of p) ->
+    shape_ok (step KDs f p) /\ schema_of (step KDs f p) = schema_of p /\
+    forall env, den_plan db fn_sem assert_sem cast_sem other_sem agg_sem key_eqb distinct_sel ost_sel tvf_sem (step KDs f p) env =
+                den_plan db fn_sem assert_sem cast_sem other_sem agg_sem key_eqb distinct_sel ost_sel tvf_sem p env.
+Proof. intros db f a ca o ag k d os t fd p. apply (remove_step_sound db f a ca o ag k d os t KDs fd p). discriminate. Qed.
+Print Assumptions C04_remove_unused_datasource_field_step.
+
+(* RemoveUnusedGroupByNonKeyFields: dropping an unused aggregate (never a key: okb KGb) drops exactly its column. *)
+Theorem C04_remove_unused_groupby_field_step :
+  forall db fn_sem assert_sem cast_sem other_sem agg_sem key_eqb distinct_sel ost_sel tvf_sem f p,
+    shape_ok p -> okb KGb f p = true -> ~ In f (fields_of p) ->
+    shape_ok (step KGb f p) /\ schema_of (step KGb f p) = schema_of p /\
+    forall env, den_plan db fn_sem assert_sem cast_sem other_sem agg_sem key_eqb distinct_sel ost_sel tvf_sem (step KGb f p) env =
+                den_plan db fn_sem assert_sem cast_sem other_sem agg_sem key_eqb distinct_sel ost_sel tvf_sem p env.
+Proof. exact remove_step_sound_gb. Qed.
+Print Assumptions C04_remove_unused_groupby_field_step.
+
+(* the rules really are folds of that step *)
+Theorem C04_remove_unused_is_fold_of_steps : forall c p,
+  remove_unused c map_fields remove_map_field1 p =
+    fold_left (fun acc f => if is_used c f (fst acc) then acc else (step KMap f (fst acc), true)) (map_fields p) (p, false) /\
+  remove_unused c datasource_fields remove_datasource_field1 p =
+    fold_left (fun acc f => if is_used c f (fst acc) then acc else (step KDs f (fst acc), true)) (datasource_fields p) (p, false) /\
+  remove_unused c groupby_fields remove_groupby_field1 p =
+    fold_left (fun acc f => if is_used c f (fst acc) then acc else (step KGb f (fst acc), true)) (groupby_fields p) (p, false).
+Proof. intros c p. repeat split; reflexivity. Qed.
+Print Assumptions C04_remove_unused_is_fold_of_steps.
+
+(* Non-vacuity: a subquery's unused column (b_0 is computed by the inner map, passed through a filter, never read). *)
+Local Open Scope string_scope.
+Example C04_prune_hypotheses_satisfiable :
+  let ds := PDatasource (mkS ["t.a_0"; "t.b_0"] (-1)) "t.csv" "t" [("t.a", "t.a_0"); ("t.b", "t.b_0")] 0 [] in
+  let p := PMap (mkS ["x.a_0"] (-1)) [EVar "a_0" true]
+             (PFilter (mkS ["a_0"; "b_0"] (-1)) (ECall ">" [EVar "a_0" true; EConst (VInt 1)])
+                (PMap (mkS ["a_0"; "b_0"] (-1)) [EVar "t.a_0" true; EVar "t.b_0" true] ds)) in
+  wf_plan p /\ okb KMap "b_0" p = true /\ ~ In "b_0" (fields_of p) /\ plan_eqb (step KMap "b_0" p) p = false /\
+  apply_rule fixed_cfg "RemoveUnusedMapFields" p = Ok (step KMap "b_0" p, true).
+Proof.
+  repeat split; try (vm_compute; reflexivity). intros [H|[]]. discriminate.
+Qed.
+Local Close Scope string_scope.
+
+(* REMAINING GAPS (stated exactly):
+   (1) C04_remove_unused_map_fields / _datasource_fields / _groupby_fields as whole rules: okb k f cur must hold for every unused
+       candidate f at every intermediate plan cur of the fold.  It follows from  shape_ok + "binder field names are
+       unique across the plan" (+ no PTvfT), which the typechecker establishes (c04_wf checks wf_planb on every case)
+       and every rule preserves; that derivation and the preservation lemmas are not proved.
+   (2) (closed: C04_remove_unused_groupby_field_step.)
+   (3) plans with PTvfT: needs an assumption on tvf_sem (output rows = source row ++ columns computed from the time
+       field and the arguments), true of tumble and max_diff_watermark.
+   (4) hence C04_optimize for the default list and C04_terminates remain open; see C04_optimize_partial. *)
 
 (* The rule order of optimizer/optimize.go (generated) only names rules the model has. *)
 Theorem C04_rule_order_modelled : forallb known_rule default_optimization_rules = true.
